@@ -761,9 +761,9 @@ class Scores:
             achieved and the EER value itself.
         """
         # We treat the case of perfect separation separately
-        if self.pos[0] >= self.neg[-1] and self.score_class == BinaryLabel.pos:
+        if self.pos[0] > self.neg[-1] and self.score_class == BinaryLabel.pos:
             return (self.pos[0] + self.neg[-1]) / 2, 0.0
-        if self.pos[-1] <= self.neg[0] and self.score_class == BinaryLabel.neg:
+        if self.pos[-1] < self.neg[0] and self.score_class == BinaryLabel.neg:
             return (self.pos[-1] + self.neg[0]) / 2, 0.0
 
         sign = -(self.threshold_at_fpr(0.0) - self.threshold_at_fnr(0.0))
